@@ -14,11 +14,11 @@ import (
 
 // One trip/vehicle pair of the enumerated space.
 type c04Pair struct {
-	ident int // 0 id, 1 label only, 2 plate only, 3 no descriptor
+	ident int // 0 id, 1 label only, 2 plate only, 3 no descriptor, 4 id+label
 	expr  int // see c04Exprs
 }
 
-var c04Idents = []string{"id", "label-only", "plate-only", "no-descriptor"}
+var c04Idents = []string{"id", "label-only", "plate-only", "no-descriptor", "id+label"}
 
 // Ways to express (or not) the association of a trip and a vehicle.
 var c04Exprs = []string{
@@ -40,7 +40,7 @@ func c04Valid(p c04Pair) bool {
 
 var c04AllPairs = func() []c04Pair {
 	var out []c04Pair
-	for id := 0; id < 4; id++ {
+	for id := 0; id < 5; id++ {
 		for e := 0; e < 6; e++ {
 			p := c04Pair{id, e}
 			if c04Valid(p) {
@@ -91,13 +91,24 @@ func c04Build(pairs []c04Pair) ([]*gtfsrt.FeedEntity, []c04Expect) {
 	for i, p := range pairs {
 		trip := &gtfsrt.TripDescriptor{TripId: rgen.S(fmt.Sprintf("T%d", i)), RouteId: rgen.S("R")}
 		var vd *gtfsrt.VehicleDescriptor
+		// Distinct vehicles deliberately share strings across fields: the same text as id of one
+		// vehicle, label of another and plate of a third, and id+label splits of one digit string.
+		same := "7001"
+		for j := 0; j < i; j++ {
+			if pairs[j].ident == p.ident {
+				same += "x" // two vehicles of the same kind must still differ
+			}
+		}
 		switch p.ident {
 		case 0:
-			vd = &gtfsrt.VehicleDescriptor{Id: rgen.S(fmt.Sprintf("V%d", i))}
+			vd = &gtfsrt.VehicleDescriptor{Id: rgen.S(same)}
 		case 1:
-			vd = &gtfsrt.VehicleDescriptor{Label: rgen.S(fmt.Sprintf("L%d", i))}
+			vd = &gtfsrt.VehicleDescriptor{Label: rgen.S(same)}
 		case 2:
-			vd = &gtfsrt.VehicleDescriptor{LicensePlate: rgen.S(fmt.Sprintf("P%d", i))}
+			vd = &gtfsrt.VehicleDescriptor{LicensePlate: rgen.S(same)}
+		case 4:
+			split := []([2]string){{"70", "01"}, {"7", "001"}, {"700", "1"}}[i%3]
+			vd = &gtfsrt.VehicleDescriptor{Id: rgen.S(split[0]), Label: rgen.S(split[1])}
 		}
 		e := c04Expect{tripID: fmt.Sprintf("T%d", i), vehID: rgen.VehicleIDOf(vd), vehStop: fmt.Sprintf("at-%d", i), pair: p}
 		clone := func() *gtfsrt.TripDescriptor {
